@@ -450,4 +450,108 @@ theorem ladmm_lyapunov_step (p : LADMMParams ℝ X Z) (F : Fn X) (G : Fn Z) (xs 
   rw [e3, norm_neg] at core
   nlinarith [core]
 
+theorem ladmmV_nonneg (p : LADMMParams ℝ X Z) (F : Fn X) (G : Fn Z) (xs : X) (us : Z) (H : LADMMHyp p F G xs us)
+    (s : LADMMState X Z) : 0 ≤ ladmmV p xs us s := by
+  unfold ladmmV
+  have h1 := H.bd (s.x - xs)
+  have hn := H.nu
+  have t1 : 0 ≤ 1 / p.nu * ‖s.u - us‖ ^ 2 := by positivity
+  have t2 : 0 ≤ 1 / p.nu * ‖s.z - p.C xs‖ ^ 2 := by positivity
+  have t3 : 0 ≤ 1 / p.nu * (p.nu / p.mu * ‖s.x - xs‖ ^ 2 - ‖p.C (s.x - xs)‖ ^ 2) :=
+    mul_nonneg (by positivity) (by linarith)
+  linarith
+
+theorem ladmmDiss_lower (p : LADMMParams ℝ X Z) (F : Fn X) (G : Fn Z) (xs : X) (us : Z) (H : LADMMHyp p F G xs us)
+    (s s' : LADMMState X Z) : 1 / p.nu * ‖s'.z - s.z‖ ^ 2 + 1 / p.nu * ‖s'.u - s.u‖ ^ 2 ≤ ladmmDiss p s s' := by
+  unfold ladmmDiss
+  have h1 := H.bd (s'.x - s.x)
+  have hn := H.nu
+  have t3 : 0 ≤ 1 / p.nu * (p.nu / p.mu * ‖s'.x - s.x‖ ^ 2 - ‖p.C (s'.x - s.x)‖ ^ 2) :=
+    mul_nonneg (by positivity) (by linarith)
+  linarith
+
+theorem ladmmDiss_nonneg (p : LADMMParams ℝ X Z) (F : Fn X) (G : Fn Z) (xs : X) (us : Z) (H : LADMMHyp p F G xs us)
+    (s s' : LADMMState X Z) : 0 ≤ ladmmDiss p s s' := by
+  have := ladmmDiss_lower p F G xs us H s s'
+  have hn := H.nu
+  have t1 : 0 ≤ 1 / p.nu * ‖s'.z - s.z‖ ^ 2 := by positivity
+  have t2 : 0 ≤ 1 / p.nu * ‖s'.u - s.u‖ ^ 2 := by positivity
+  linarith
+
+theorem ladmm_feasible_iter (p : LADMMParams ℝ X Z) (F : Fn X) (G : Fn Z) (xs : X) (us : Z) (H : LADMMHyp p F G xs us)
+    (s : LADMMState X Z) (hpre : G.Subgrad s.z ((1 / p.nu) • s.u)) (k : Nat) :
+    G.Subgrad (iter (ladmmSpecStep p) k s).z ((1 / p.nu) • (iter (ladmmSpecStep p) k s).u) := by
+  induction k with
+  | zero => exact hpre
+  | succ k _ => rw [iter_succ']; exact ladmm_feasible_step p G H.nu H.proxg _
+
+theorem ladmm_lyapunov_sum (p : LADMMParams ℝ X Z) (F : Fn X) (G : Fn Z) (xs : X) (us : Z) (H : LADMMHyp p F G xs us)
+    (s : LADMMState X Z) (hpre : G.Subgrad s.z ((1 / p.nu) • s.u)) (k : Nat) :
+    (∑ j ∈ Finset.range k, ladmmDiss p (iter (ladmmSpecStep p) j s) (iter (ladmmSpecStep p) (j + 1) s))
+      + ladmmV p xs us (iter (ladmmSpecStep p) k s) ≤ ladmmV p xs us s := by
+  induction k with
+  | zero => simp [iter]
+  | succ k ih =>
+    rw [Finset.sum_range_succ]
+    have h := ladmm_lyapunov_step p F G xs us H _ (ladmm_feasible_iter p F G xs us H s hpre k)
+    rw [← iter_succ' (ladmmSpecStep p) k s] at h
+    linarith
+
+theorem ladmm_lyapunov_mono (p : LADMMParams ℝ X Z) (F : Fn X) (G : Fn Z) (xs : X) (us : Z) (H : LADMMHyp p F G xs us)
+    (s : LADMMState X Z) (hpre : G.Subgrad s.z ((1 / p.nu) • s.u)) (k : Nat) :
+    ladmmV p xs us (iter (ladmmSpecStep p) (k + 1) s) ≤ ladmmV p xs us (iter (ladmmSpecStep p) k s) := by
+  have h := ladmm_lyapunov_step p F G xs us H _ (ladmm_feasible_iter p F G xs us H s hpre k)
+  rw [← iter_succ' (ladmmSpecStep p) k s] at h
+  have := ladmmDiss_nonneg p F G xs us H (iter (ladmmSpecStep p) k s) (iter (ladmmSpecStep p) (k + 1) s)
+  linarith
+
+/-- from EVERY start: `norm_primal_residual()` = `‖C x − z‖` and `‖z − z_old‖` tend to `0` -/
+theorem ladmm_residuals_tendsto (p : LADMMParams ℝ X Z) (F : Fn X) (G : Fn Z) (xs : X) (us : Z)
+    (H : LADMMHyp p F G xs us) (hnz : p.normZ = fun v => ‖v‖) (s : LADMMState X Z) :
+    Filter.Tendsto (fun k => ladmmNormPrimalImpl p (iter (ladmmSpecStep p) (k + 2) s) none) Filter.atTop (nhds 0) ∧
+    Filter.Tendsto (fun k => ‖(iter (ladmmSpecStep p) (k + 2) s).z - (iter (ladmmSpecStep p) (k + 2) s).zOld‖)
+      Filter.atTop (nhds 0) := by
+  have hn := H.nu
+  have hpre := ladmm_feasible_step p G H.nu H.proxg s
+  set s1 := ladmmSpecStep p s with hs1
+  have hshift : ∀ k, iter (ladmmSpecStep p) (k + 2) s = iter (ladmmSpecStep p) (k + 1) s1 := fun k => rfl
+  have hD : Filter.Tendsto (fun k => ladmmDiss p (iter (ladmmSpecStep p) k s1) (iter (ladmmSpecStep p) (k + 1) s1))
+      Filter.atTop (nhds 0) := by
+    apply tendsto_zero_of_partial_sums_le (c := ladmmV p xs us s1)
+    · intro n; exact ladmmDiss_nonneg p F G xs us H _ _
+    · intro n
+      have := ladmm_lyapunov_sum p F G xs us H s1 hpre n
+      have := ladmmV_nonneg p F G xs us H (iter (ladmmSpecStep p) n s1)
+      linarith
+  have hb := hD.const_mul p.nu
+  rw [mul_zero] at hb
+  constructor
+  · refine tendsto_zero_of_sq_le (fun k => ?_) (fun k => ?_) hb
+    · unfold ladmmNormPrimalImpl; rw [hnz]; positivity
+    · rw [hshift]
+      have hl := ladmmDiss_lower p F G xs us H (iter (ladmmSpecStep p) k s1) (iter (ladmmSpecStep p) (k + 1) s1)
+      have t1 : 0 ≤ 1 / p.nu * ‖(iter (ladmmSpecStep p) (k + 1) s1).z - (iter (ladmmSpecStep p) k s1).z‖ ^ 2 := by positivity
+      -- u_{k+1} − u_k = C x_{k+1} − z_{k+1}
+      have e : ladmmNormPrimalImpl p (iter (ladmmSpecStep p) (k + 1) s1) none
+          = ‖(iter (ladmmSpecStep p) (k + 1) s1).u - (iter (ladmmSpecStep p) k s1).u‖ := by
+        unfold ladmmNormPrimalImpl
+        rw [hnz, iter_succ']
+        show ‖p.C (ladmmSpecStep p _).x - (ladmmSpecStep p _).z‖ = ‖(ladmmSpecStep p _).u - _‖
+        congr 1
+        show _ = (iter (ladmmSpecStep p) k s1).u + p.C (ladmmSpecStep p _).x - (ladmmSpecStep p _).z - _
+        abel
+      rw [e]
+      have : p.nu * (1 / p.nu * ‖(iter (ladmmSpecStep p) (k + 1) s1).u - (iter (ladmmSpecStep p) k s1).u‖ ^ 2)
+          = ‖(iter (ladmmSpecStep p) (k + 1) s1).u - (iter (ladmmSpecStep p) k s1).u‖ ^ 2 := by field_simp
+      nlinarith
+  · refine tendsto_zero_of_sq_le (fun k => norm_nonneg _) (fun k => ?_) hb
+    rw [hshift]
+    have hl := ladmmDiss_lower p F G xs us H (iter (ladmmSpecStep p) k s1) (iter (ladmmSpecStep p) (k + 1) s1)
+    have t1 : 0 ≤ 1 / p.nu * ‖(iter (ladmmSpecStep p) (k + 1) s1).u - (iter (ladmmSpecStep p) k s1).u‖ ^ 2 := by positivity
+    have e : (iter (ladmmSpecStep p) (k + 1) s1).zOld = (iter (ladmmSpecStep p) k s1).z := by rw [iter_succ']; rfl
+    rw [e]
+    have : p.nu * (1 / p.nu * ‖(iter (ladmmSpecStep p) (k + 1) s1).z - (iter (ladmmSpecStep p) k s1).z‖ ^ 2)
+        = ‖(iter (ladmmSpecStep p) (k + 1) s1).z - (iter (ladmmSpecStep p) k s1).z‖ ^ 2 := by field_simp
+    nlinarith
+
 end Scico.Steps
